@@ -13,7 +13,8 @@ RULE = ("A domain-restricted transform (Exp/Tanh/Sigmoid inverses, Logit, Cauchy
         "elements in which ONE element (any position) is placed exactly on a boundary, 1/2/8 ulp inside, 1/2/8 ulp outside or "
         "far outside. Oracle: outside (by the transform's own domain for that direction, open/closed as documented) => "
         "raises InputOutsideDomain (exact type); otherwise no exception and all outputs finite. Non-trivial: the probe is "
-        "within 8 ulp of a boundary. Distinct = distinct case JSON.")
+        "within 8 ulp of a boundary. Bounded single-precision splines are also handed double-precision inputs 1/2/8 double-precision steps "
+        "outside the box: InputOutsideDomain. Distinct = distinct case JSON.")
 ASSUMPTIONS = ["domains: Exp.inverse (0,inf); Tanh.inverse (-1,1); Sigmoid.inverse/Logit/CauchyCDF.inverse [0,1]; splines: closed "
                "[left,right] forward, closed [bottom,top] inverse; with linear tails every finite real",
                "wrappers whose conditioner shifts nothing: the box of transformed features is parameter-independent"]
